@@ -76,7 +76,7 @@ def number(spec):
     return tree, nodes, name
 
 
-def harness(spec, N_objs, two_vars, abandoned_first=False, value_eq=False, bare=False):
+def harness(spec, N_objs, two_vars, abandoned_first=False, value_eq=False, bare=False, narrow=False):
     tree, nodes, name = number(spec)
     idx = {id(n): i for i, n in enumerate(nodes)}
 
@@ -111,7 +111,7 @@ def harness(spec, N_objs, two_vars, abandoned_first=False, value_eq=False, bare=
 
         def conclude(i):
             kw = dict(src=x, val=x.a)
-            if two_vars:
+            if two_vars and not (narrow and i > 0):  # narrow: only the base concludes over both variables
                 kw["other"] = y
             Add(views, inference(TYPES[i])(**kw))
 
@@ -146,7 +146,9 @@ def harness(spec, N_objs, two_vars, abandoned_first=False, value_eq=False, bare=
             ti = TYPES.index(type(r)) if type(r) in TYPES else -1
             ix = index_of(xs, r.src)
             iy = index_of(ys, r.other) if two_vars else 0
-            if ti < 0 or ix < 0 or iy < 0:
+            if narrow and ti > 0 and r.other is None:
+                iy = -2  # a conclusion over x only
+            if ti < 0 or ix < 0 or iy == -1:
                 unknown += 1
             got.append((ix, iy, ti, r.val))
         ctx.observe([g[:3] for g in got])
@@ -191,11 +193,20 @@ def harness(spec, N_objs, two_vars, abandoned_first=False, value_eq=False, bare=
         v = {"instances-known": unknown == 0}
         terms_count, terms_val = {i: [] for i in range(len(nodes))}, []
         for ix, ox in enumerate(xs):
+            ems = [emits(ox, oy) for oy in ys]
             for iy, oy in enumerate(ys):
-                em = emits(ox, oy)
+                em = ems[iy]
                 for i in range(len(nodes)):
+                    if narrow and i > 0:
+                        continue
                     n_got = sum(1 for g in got if g[:3] == (ix, iy, i))
                     terms_count[i].append(EQ(n_got, B2I(em[i])))
+            if narrow:
+                # a branch that concludes over x only: its conclusion is there iff it fires for some y (how often is not stated)
+                for i in range(1, len(nodes)):
+                    n_got = sum(1 for g in got if g[:3] == (ix, -2, i))
+                    terms_count[i].append(IFF(OR([em[i] for em in ems]), n_got >= 1))
+            for iy, oy in enumerate(ys):
                 for g in got:
                     if g[0] == ix and g[1] == iy:
                         terms_val.append(EQ(g[3], ox.a))
@@ -349,6 +360,13 @@ def cases(tier, seed):
     for t in [N(), N(ref=[L_]), N(ref=[L_, L_]), N(alts=[L_]), N(alts=[L_, L_]), N(ref=[L_], alts=[L_])]:
         h, name = harness(t, 2, False, abandoned_first=True)
         nm = "tree %s|x|after an abandoned partial evaluation" % name
+        cs.append(Case(nm + "|N=2", h, key=nm, reset=eql_reset, core=True, timeout=300 if tier == "quick" else 1200, max_paths=50000 if tier == "quick" else 400000, validate=1, cex_grace=10**9))
+    # the base concludes over (x, y), the branches of its refinement over x only (several y per x repeat the branch's conclusion)
+    # (with an alternative inside the refinement the unchanged tree already loses the base's conclusion for the later y of an
+    # x whose alternative fired - a further instance of the listed tree-surgery findings; that tree is not run in this variant)
+    for t in [N(ref=[L_])]:
+        h, name = harness(t, 2, True, narrow=True)
+        nm = "tree %s|x,y|branches conclude over x only" % name
         cs.append(Case(nm + "|N=2", h, key=nm, reset=eql_reset, core=True, timeout=300 if tier == "quick" else 1200, max_paths=50000 if tier == "quick" else 400000, validate=1, cex_grace=10**9))
     # conditions that are bare attributes (their truth value), also as the only condition of a refinement / of the base
     for t in [N(ref=[L_]), N(ref=[L_, L_]), N(alts=[L_]), N(ref=[L_], alts=[L_])]:
